@@ -54,6 +54,21 @@ Theorem C06_open_fault_without_backup : forall (c : config enc) f body fault s e
   c_backup enc c = None -> body s = BNormal s' -> ser s' = Some ot -> encode en ot = Some ob ->
   fault (OpenW (out_path enc c)) = true -> mutate c f body fault = (f, Some XFault).
 Proof. intros c f body fault. exact (mutate_open_fault_no_backup S text content enc decodes load ser encode empty c f body fault). Qed.
+
+(* histories: however many attempts end without saving (an exception that is not a file-system fault, or a cancelled body),
+   in whatever configurations, the file system is exactly what it was, and the next mutate - the retry - does exactly what
+   it would have done as the first call *)
+Notation attempt := (attempt S enc).
+Notation attempt_result := (attempt_result S text content enc decodes load ser encode empty).
+Notation run_attempts := (run_attempts S text content enc decodes load ser encode empty).
+Notation not_saving := (not_saving S text content enc decodes load ser).
+Theorem C06_failed_attempts_leave_no_trace : forall f (l : list attempt),
+  Forall (not_saving encode empty f) l -> run_attempts f l = f.
+Proof. exact (failed_attempts_leave_no_trace S text content enc decodes load ser encode empty). Qed.
+
+Theorem C06_retry_as_first_try : forall f (l : list attempt) a,
+  Forall (not_saving encode empty f) l -> attempt_result (run_attempts f l) a = attempt_result f a.
+Proof. exact (retry_as_first_try S text content enc decodes load ser encode empty). Qed.
 End C06.
 
 Print Assumptions C06_body_raise.
@@ -61,6 +76,8 @@ Print Assumptions C06_cancel_swallowed.
 Print Assumptions C06_failure_before_writing_changes_nothing.
 Print Assumptions C06_fault_schedules.
 Print Assumptions C06_open_fault_without_backup.
+Print Assumptions C06_failed_attempts_leave_no_trace.
+Print Assumptions C06_retry_as_first_try.
 
 (* non-vacuity: a concrete schedule failing the opening of the output with a backup requested *)
 From SV Require Import MutateRun Msd Simfile.
@@ -72,3 +89,26 @@ Example C06_example :
   snd r = Some XFault /\ fs_read content str_eqb (fst r) [105;46;115;109]%N = Some (Raw 0) /\
   fs_read content str_eqb (fst r) [98]%N = Some (Enc 0 (ser_sm {| sm_props := [([84;73;84;76;69]%N, Some [97]%N)]; sm_charts := [] |})).
 Proof. vm_compute. repeat split; reflexivity. Qed.
+
+(* non-vacuity of the history theorems: an unserialisable edit, a raising body and a cancelled body in a row, then a retry
+   that saves (contents are numbers here; 0 cannot be serialised) *)
+Example C06_history_example :
+  let dec := fun (_ : nat) (c : nat) => Some c in
+  let ld := fun (_ : str) (t : nat) => Some t in
+  let sr := fun s : nat => match s with O => None | _ => Some s end in
+  let en := fun (_ : nat) (t : nat) => Some t in
+  let cfg := {| c_input := [105]%N; c_output := None; c_backup := Some [98]%N; c_encs := [0%nat] |} in
+  let f := [([105]%N, 5%nat)] in
+  let l := [ {| a_cfg := cfg; a_body := fun _ => BNormal 0%nat; a_fault := fun _ => false |};
+             {| a_cfg := cfg; a_body := fun _ => BRaise 1%Z; a_fault := fun _ => false |};
+             {| a_cfg := cfg; a_body := fun _ => BCancel; a_fault := fun _ => false |} ] in
+  Forall (not_saving nat nat nat nat dec ld sr en 0%nat f) l /\
+  attempt_result nat nat nat nat dec ld sr en 0%nat (run_attempts nat nat nat nat dec ld sr en 0%nat f l)
+     {| a_cfg := cfg; a_body := fun _ => BNormal 7%nat; a_fault := fun _ => false |} = ([([105]%N, 7%nat); ([98]%N, 5%nat)], None).
+Proof.
+  cbv zeta. split; [|vm_compute; reflexivity].
+  apply Forall_cons; [|apply Forall_cons; [|apply Forall_cons; [|apply Forall_nil]]].
+  - left. exists XSerialize. split; [vm_compute; reflexivity|discriminate].
+  - left. exists (XBody 1%Z). split; [vm_compute; reflexivity|discriminate].
+  - right. exists 5%nat, 0%nat. repeat split; try (vm_compute; reflexivity). intros _. discriminate.
+Qed.
